@@ -10,6 +10,17 @@ CHECKS = {
                   'loops unwound with solver-discharged unwinding assertions. Exhaustive over all real values in the range, which a lattice of test points cannot be.',
              design='6/C07'),
 }
+CHECKS.update({
+ 'C18': dict(text='random_angles/random_angle executed symbolically with gen_range(lo..hi) replaced by an oracle returning ANY u in [lo,hi) (panicking iff the range is empty): '
+                  'for every from,to in [-2pi,2pi] and every generator outcome the solver proves the produced angle lies on the arc (oracle) and is accepted by the real compliant(), '
+                  'and that no panic is reachable when the arc has positive width. Covers all outcomes of the RNG, which drawing samples cannot.', design='6/C18'),
+ 'C05': dict(text='Clause (a) (detection): kinematic_singularity + is_close_to_multiple_of_pi executed from MIR; for |J5|<=4pi, |offset5|<=2pi, sign5=+-1 the solver proves '
+                  'reported <=> distance of q5=J5*sign5-offset5 to the nearest multiple of pi is below 0.01 deg (both directions, both sides of every multiple). '
+                  'Clause (b)/(c) (J4/J6 continuity of the recovered answer) is covered structurally by the continuation harness when built; the micro-shift recovery under rounding is outside this technique.', design='6/C05'),
+ 'C03': dict(text='forward and forward_with_joint_poses executed from MIR through mathematical nalgebra models; with ALL parameters, offsets, sign symbols (sigma^2=1) and joint angles free, '
+                  'the solver decides (after normalisation modulo the asserted unit-circle relations) that the tool pose and every link pose equal the independently written product of the six '
+                  'elementary transforms, origins are separated by the parameter offsets, and the matrix given to from_matrix_unchecked is a proper rotation. Angles enter only via sin/cos, so |q|>>2pi is covered.', design='6/C03'),
+})
 PENDING = {}
 NA = {}
 def main():
